@@ -156,7 +156,7 @@ func c08Exec(c *core.Ctx, cs c08Case) {
 }
 
 func c08Gen(c *core.Ctx) {
-	n := c.Pick(4000, 200000)
+	n := c.Pick(4000, 600000)
 	for i := 0; i < n; i++ {
 		if !c.Mine() {
 			continue
